@@ -154,8 +154,27 @@ fn first_panic_frame(msg: &str) -> String {
 }
 
 fn run_sequence(who: Who, lines: &[(String, String)], dir: &str, v: &Verdicts, stats: &Mutex<Stats>) {
+    run_sequence_after(&[], who, lines, dir, v, stats)
+}
+
+/// `departed`: sessions that ran a script and are gone before the session under test starts: (script, clean) where clean =
+/// the disconnect sequence of the transports (unwatch-all + left) ran, not clean = the connection's thread died (the
+/// client's channel is simply dropped). What they leave behind (subscriptions in a database they no longer had selected,
+/// duplicate subscriptions, an arbiter registration) is state every later command has to cope with.
+fn run_sequence_after(departed: &[(Vec<String>, bool)], who: Who, lines: &[(String, String)], dir: &str, v: &Verdicts, stats: &Mutex<Stats>) {
     let mut fx = fixture(dir);
     let dbs = fx.node.dbs.clone();
+    for (script, clean) in departed {
+        let mut g = Session::new();
+        for l in script {
+            let _ = std::panic::catch_unwind(std::panic::AssertUnwindSafe(|| g.call(&dbs, l)));
+        }
+        if *clean {
+            g.disconnect(&dbs);
+        } else {
+            drop(g);
+        }
+    }
     let mut s = Session::new();
     match who {
         Who::Anon => {}
@@ -331,6 +350,27 @@ pub fn run(tier: &str) -> i32 {
     for (who, lines) in targeted() {
         cases.push((who, lines.into_iter().map(|l| { let w = l.split(' ').next().unwrap_or("").to_string(); (l, format!("{}/targeted", w)) }).collect()));
     }
+    // sessions that left something behind, then every kind of write that walks the watcher lists
+    let mut departed_cases: Vec<(Vec<(Vec<String>, bool)>, Who, Vec<(String, String)>)> = vec![];
+    {
+        let scripts: Vec<Vec<&str>> = vec![
+            vec!["use-db db tok", "watch k", "use-db adb tok"],
+            vec!["use-db db tok", "watch k", "watch k", "watch n"],
+            vec!["use-db db tok", "watch k", "watch n", "use-db db tok"],
+            vec!["use-db adb tok", "arbiter", "watch k", "use-db db tok", "watch k"],
+        ];
+        let writes = ["set k v", "increment n 1", "remove k", "set k w", "set-safe k 0 x", "remove n", "increment n", "use-db adb tok", "set k 1", "set k 2", "set-safe k 0 c", "remove k", "unwatch-all", "watch k", "unwatch k"];
+        for sc in &scripts {
+            for n in 1..=3usize {
+                for clean in [true, false] {
+                    for who in [Who::Token, Who::Admin] {
+                        let departed: Vec<(Vec<String>, bool)> = (0..n).map(|_| (sc.iter().map(|x| x.to_string()).collect(), clean)).collect();
+                        departed_cases.push((departed, who, writes.iter().map(|l| (l.to_string(), format!("{}/after-departed-sessions", l.split(' ').next().unwrap()))).collect()));
+                    }
+                }
+            }
+        }
+    }
     let n_targeted = cases.len();
     // systematic: every word x every single argument class, for every session kind
     for who in [Who::Anon, Who::Token, Who::Admin, Who::AdminNoDb] {
@@ -368,12 +408,21 @@ pub fn run(tier: &str) -> i32 {
             });
         }
     });
+    // sequences that start after other sessions have left something behind
+    {
+        let dir = fresh_dir("c10-departed");
+        for (departed, who, lines) in &departed_cases {
+            let _ = std::fs::remove_dir_all(&dir);
+            std::fs::create_dir_all(&dir).unwrap();
+            run_sequence_after(departed, *who, lines, &dir, &v, &stats);
+        }
+    }
     // the same corpus over the three real transports
     let th = crate::transports::c10_transports(&v, &cases, if thorough { 6000 } else { 700 });
     let st = stats.into_inner().unwrap();
     ev.evaluations = st.lines + th.lines;
     ev.distinct_nontrivial = st.classes.len() as u64;
-    ev.rule = format!("in-process: {} targeted sequences + {} systematic lines (every parser command word + unknown + empty x every argument class alone and after a key, for anonymous / db-token / admin sessions) + {} seeded random sequences of 1-4 lines (0-5 arguments from {} hostile classes, 1/12 raw random bytes); after every line: catch_unwind, the real replication loop and supervisor consume what was enqueued, snapshot timer action if queued, poison scan of every lock, set/get probe from a second client. Transports: {} lines of the same corpus over real TCP, HTTP (incl. bodies of >100 commands) and WebSocket (text and binary frames) servers started in-process, each followed by a liveness probe. distinct_nontrivial = distinct (command word, argument class) pairs executed", n_targeted, n_systematic, n_random, pool.len(), th.lines);
+    ev.rule = format!("in-process: {} sequences of 15 writes / watch commands that start after 1-3 other sessions left subscriptions behind (in a database they no longer had selected, duplicated, as arbiter; gone by the transports' disconnect sequence or with their channel simply dropped) + {} targeted sequences + {} systematic lines (every parser command word + unknown + empty x every argument class alone and after a key, for anonymous / db-token / admin sessions) + {} seeded random sequences of 1-4 lines (0-5 arguments from {} hostile classes, 1/12 raw random bytes); after every line: catch_unwind, the real replication loop and supervisor consume what was enqueued, snapshot timer action if queued, poison scan of every lock, set/get probe from a second client. Transports: {} lines of the same corpus over real TCP, HTTP (incl. bodies of >100 commands) and WebSocket (text and binary frames) servers started in-process, each followed by a liveness probe. distinct_nontrivial = distinct (command word, argument class) pairs executed", departed_cases.len(), n_targeted, n_systematic, n_random, pool.len(), th.lines);
     ev.samples = st.samples.clone();
     ev.set("in_process_lines", json!(st.lines));
     ev.set("probe_round_trips", json!(st.probes));
